@@ -416,7 +416,7 @@ func main() {
 		}
 		var v notation.Verifier
 		var err error
-		if i%4 == 3 {
+		if (i/2)%3 == 2 { // combined with both validator interfaces (i%2)
 			// the deprecated constructor must behave identically
 			var pmgr plugin.Manager
 			if m != nil {
